@@ -19,3 +19,8 @@ def mf_replay_batch(mods, scns):
 def cpp_generate(mods, scn, cse, outdir, kind="ekf", presentation=None, via_entry=False):
     import cpprep
     return cpprep.generate_task(mods, scn, cse, outdir, kind=kind, presentation=presentation, via_entry=via_entry)
+
+
+def mf_decimal_batch(mods, scns, unit):
+    import mfcheck
+    return mfcheck.decimal_python(mods, scns, unit)
